@@ -2,7 +2,10 @@
 
 package method_evaluator
 
-import "ti/base"
+import (
+	"ti/base"
+	"ti/parser"
+)
 
 // VerifPrioritizeArgTs exposes prioritizeArgTs (positional arguments first, keyword arguments sorted by key).
 func VerifPrioritizeArgTs(argTs []*base.T) []*base.T { return prioritizeArgTs(argTs) }
@@ -14,4 +17,11 @@ func VerifPrioritizeDefineArgNames(names []string) []string { return prioritizeD
 func VerifCheckArgType(definedArgT, argT *base.T) bool {
 	m := &MethodEvaluator{method: "m"}
 	return checkArgType(m, "C", definedArgT, argT) == nil
+}
+
+// VerifCalculateExecutionType exposes calculateExecutionType for a declared return type, a receiver and arguments.
+// It returns the result and the receiver afterwards (OptionalUnify appends to the receiver).
+func VerifCalculateExecutionType(p *parser.Parser, methodT, recvT *base.T, args []*base.T) *base.T {
+	m := &MethodEvaluator{method: methodT.GetMethodName(), evaluatedObjectT: recvT, parser: p}
+	return calculateExecutionType(m, methodT, args)
 }
